@@ -82,6 +82,28 @@ class FuncInfo:
     def source_hash(self):
         return hashlib.sha256(ast.dump(self.node).encode()).hexdigest()[:16]
 
+    def vc_hash(self, prog):
+        """Hash of everything in the repository the verification conditions of this function are generated from:
+        the function body, the class-level assignments of its class hierarchy, the module constants and the
+        TypedDict declarations.  (Callees enter only through their contracts, which live in /verif.)"""
+        h = hashlib.sha256()
+        h.update(ast.dump(self.node).encode())
+        cls = self.cls
+        seen = set()
+        while cls and cls in prog.classes and cls not in seen:
+            seen.add(cls)
+            ci = prog.classes[cls]
+            for k in sorted(ci.class_attrs):
+                h.update(k.encode() + ast.dump(ci.class_attrs[k]).encode())
+            h.update(",".join(ci.bases).encode())
+            cls = next((b for b in ci.bases if b in prog.classes), None)
+        for k, v in sorted(prog.module_consts.get(self.module, {}).items()):
+            h.update(k.encode() + ast.dump(v).encode())
+        for name in sorted(prog.typed_dict_defs):
+            for m, node in prog.typed_dict_defs[name]:
+                h.update(ast.dump(node).encode())
+        return h.hexdigest()[:20]
+
 
 class ClassInfo:
     def __init__(self, module, name, node):
